@@ -33,7 +33,7 @@ M = {
  "c06_check_not_compared_when_long": (["C06", "C07"], [(SP, "        if vt_check != set_vt(dna_sequence=dna_sequence, vt_length=len(vt_check)):", "        if len(vt_check) < 6 and vt_check != set_vt(dna_sequence=dna_sequence, vt_length=len(vt_check)):", 1)]),
  "c06_dead_vertex_silently_ends": (["C06"], [(SP, "            else:  # current vertex is wrong.\n                raise ValueError(\"Current vertex doesn't have an out-degree, \"\n                                 + \"the accessor, the start vertex, or DNA sequence is wrong!\")\n\n            if verbose:\n                monitor(location + 1, len(dna_sequence))", "            else:  # current vertex is wrong.\n                break\n\n            if verbose:\n                monitor(location + 1, len(dna_sequence))", 1)]),
  "c07_ascent_ge": (["C07"], [(SP, "where((values[1:] - values[:-1]) > 0)[0]", "where((values[1:] - values[:-1]) >= 0)[0]", 1)]),
- "c07_one_based_positions": (["C07"], [(SP, "vt_value = sum(where((values[1:] - values[:-1]) > 0)[0]) %", "vt_value = sum(where((values[1:] - values[:-1]) > 0)[0] + 1) %", 1)]),
+ "c07_one_based_positions": (["C07"], [(SP, "vt_value = int(sum(where((values[1:] - values[:-1]) > 0)[0])) %", "vt_value = int(sum(where((values[1:] - values[:-1]) > 0)[0] + 1)) %", 1)]),
  "c07_modulus_4_pow_n": (["C07"], [(SP, "% (len(nucleotides) ** (vt_length - 1))", "% (len(nucleotides) ** vt_length)", 1)]),
  "c09_no_check_on_fallback": (["C09"], [(SP, "            if vt_check == set_vt(dna_sequence=dna_sequence, vt_length=len(vt_check)):\n                return [dna_sequence], (0, False, 0, visited_times)\n            else:\n                return [], (0, True, 0, visited_times)", "            return [dna_sequence], (0, False, 0, visited_times)", 1)]),
  "c09_no_check_on_product_single_site": (["C09", "C08"], [(SP, "        if vt_check is not None:\n            if vt_check == set_vt(dna_sequence=repaired_dna_sequence", "        if vt_check is not None and len(repaired_fragment_set) > 1:\n            if vt_check == set_vt(dna_sequence=repaired_dna_sequence", 1)]),
